@@ -47,7 +47,7 @@ def run(repo: Repo, chk: Check):
 # ---------------------------------------------------------------------- R10.a
 def r10a(repo, chk):
     cm = repo.mod("compiler")
-    fn = cm.func("compile_code")
+    fn = cm.anchor("compile_code")
     chk.saw("compiler", "compile_code")
     cfg = CFG(fn)
     from .c15 import option_fields
@@ -108,7 +108,7 @@ def r10a(repo, chk):
             elif isinstance(c, ast.Raise):
                 chk.bad("R10.a", f"compiler:compile_code:raise {norm(c)[:50]}", "compile_code raises", None, where)
     # Compiler.compile containment
-    comp = cm.func("Compiler.compile")
+    comp = cm.anchor("Compiler.compile")
     chk.saw("compiler", "Compiler.compile")
     wherec = f"{cm.path}:{comp.lineno} in Compiler.compile"
     tries = [st for st in comp.body if isinstance(st, ast.Try)]
